@@ -872,36 +872,46 @@ func (self *PathNode) should2(op string, t thrift.Type, t2 thrift.Type) *PathNod
 
 func getStrHash(next *[]PathNode, key string, N int) *PathNode {
 	h := int(caching.StrHash(key) % uint64(N))
-	s := (*PathNode)(rt.IndexPtr(*(*unsafe.Pointer)(unsafe.Pointer(next)), sizePathNode, h))
-	for s.Path.t == PathStrKey {
+	p := *(*unsafe.Pointer)(unsafe.Pointer(next))
+	for i := 0; i < N; i++ {
+		s := (*PathNode)(rt.IndexPtr(p, sizePathNode, h))
+		if s.Path.t != PathStrKey {
+			return nil
+		}
 		if s.Path.str() == key {
 			return s
 		}
 		h = (h + 1) % N
-		s = (*PathNode)(unsafe.Pointer(uintptr(unsafe.Pointer(s)) + sizePathNode))
 	}
 	return nil
 }
 
+// seekIntHash returns the first empty slot for key in the hash table next[:N].
+// NOTICE: the table must hold less than N elements.
 func seekIntHash(next unsafe.Pointer, key uint64, N int) int {
 	h := int(key % uint64(N))
-	s := (*PathNode)(rt.IndexPtr(next, sizePathNode, h))
-	for s.Path.t != 0 {
+	for i := 0; i < N; i++ {
+		s := (*PathNode)(rt.IndexPtr(next, sizePathNode, h))
+		if s.Path.t == 0 {
+			break
+		}
 		h = (h + 1) % N
-		s = (*PathNode)(rt.AddPtr(unsafe.Pointer(s), sizePathNode))
 	}
 	return h
 }
 
 func getIntHash(next *[]PathNode, key uint64, N int) *PathNode {
 	h := int(key % uint64(N))
-	s := (*PathNode)(rt.IndexPtr(*(*unsafe.Pointer)(unsafe.Pointer(next)), sizePathNode, h))
-	for s.Path.t == PathIntKey {
+	p := *(*unsafe.Pointer)(unsafe.Pointer(next))
+	for i := 0; i < N; i++ {
+		s := (*PathNode)(rt.IndexPtr(p, sizePathNode, h))
+		if s.Path.t != PathIntKey {
+			return nil
+		}
 		if uint64(s.Path.int()) == key {
 			return s
 		}
 		h = (h + 1) % N
-		s = (*PathNode)(rt.AddPtr(unsafe.Pointer(s), sizePathNode))
 	}
 	return nil
 }
